@@ -51,6 +51,18 @@ CHECKS["C11"] = dict(cat="model_checking", ref="DESIGN.md 4/C11",
     text="Liveness reduced to bounded safety and decided symbolically: from the state an arbitrary garbage chunk (arbitrary bytes, bad-checksum frame, foreign-unit frame, truncated frame, lone delimiters; contents symbolic) leaves in an RTU/ASCII/binary receiver, four valid frames are read one (or two) per read; the 3rd and 4th are delivered as the frame's own message and the backlog stays <= garbage + one frame.",
     note="Garbage <= 8 bytes in one read; receiver = framer + the serial handlers' reset-on-exception rule. With the CRC uninterpreted, checksum-valid windows straddling garbage and valid traffic are assumed away (1 in 65536 per window for the real CRC). ASCII deafness after a rejected complete frame and RTU/binary one-frame-per-read are listed known findings.",
     technique=TECH)
+CHECKS["C09"] = dict(cat="model_checking", ref="DESIGN.md 4/C09",
+    text="The handler loops, execute() and send() of all seven server front-ends (sync TCP/serial/UDP, asyncio TCP/UDP, Twisted TCP/UDP) are executed symbolically on 1-2 well-formed requests with symbolic transaction ids, unit id, addresses, values and initial registers: the bytes written back are exactly one reference response frame per request, in order (reference register-file model wrapped in the reference ADU with the request's ids); nothing is written for broadcast, ignored absent units and listen-only responses; a raising datastore is answered with exception 04.",
+    note="Front-ends are driven through fake sockets/transports and a queue-only event loop (no selector, threads or reactor) - these fakes are the environment. Requests are FC 6 / FC 3 / FC 8-04 on a 4-register table; reads are whole frames. Twisted UDP answering listen-only requests is a listed known finding.",
+    technique=TECH)
+CHECKS["C10"] = dict(cat="model_checking", ref="DESIGN.md 4/C10",
+    text="Every front-end is executed symbolically with two hosted unit contexts whose ids are SYMBOLIC (distinct, 0..247) and a write request addressed to a symbolic unit id 0..255, for each combination of ignore_missing_slaves / broadcast_enable: exactly the addressed unit changes as the reference model prescribes; broadcast is applied once to both units with no response; an absent unit changes nothing and is answered not at all or with a gateway exception; single mode routes every id to the one context.",
+    note="Hosted-unit map is a hash-free mapping under the solver so that ids stay symbolic. One FC 6 request per obligation, 4-register tables. Front-ends driven through fakes as in C09.",
+    technique=TECH)
+CHECKS["C12"] = dict(cat="model_checking", ref="DESIGN.md 4/C12",
+    text="ANY byte string of the stated length (all bytes symbolic but the function-code position) is sent to each front-end in one or two reads: no exception leaves the front-end (Twisted: reactor contract), the datastore afterwards is unchanged or exactly what a checksum-valid write frame contained in the input prescribes (C07's recogniser + register-file model), and a probe request on a fresh connection is answered correctly.",
+    note="Inputs: TCP 12 bytes, RTU 8, ASCII 17 in quick (more lengths/function codes in thorough). CRC as uninterpreted contract on both receiver and recogniser side. The ASCII lenient-LRC region is a listed known finding.",
+    technique=TECH)
 NA_REASON = "check not built yet in this revision (work in progress; see DESIGN.md build order)"
 
 def main():
